@@ -23,6 +23,14 @@
 (*  view            look_to / look_at: rigid (orthonormal, det +1), eye to *)
 (*                  the origin, dir to -Z / +Z, up into the +Y half of the *)
 (*                  YZ plane with roll error <= 2^9 u / |dir x up|         *)
+(*  euler           from_euler(order, a, b, c) is the product of the three *)
+(*                  elementary rotations in the order the variant's name   *)
+(*                  spells (reversed for the Ex variants); the elementary  *)
+(*                  rotations have the exact 0/1 pattern of their axis and *)
+(*                  the right-hand sign; to_euler rebuilds the rotation    *)
+(*  quat_mat        a unit quaternion and a rotation matrix related by     *)
+(*                  from_quat / from_mat3 (any branch) satisfy the         *)
+(*                  quaternion-to-matrix polynomial entry by entry         *)
 (*  proj            perspective / orthographic: zero pattern, clip w, near *)
 (*                  and far planes to the documented depths, fov / box     *)
 (*                  planes to +-1, for far/near up to 2^20                 *)
@@ -174,6 +182,66 @@ ProjOk(ev) ==
            /\ lin(sx, l, tx, DyInt(-1)) /\ lin(sx, r, tx, Dy1) /\ lin(sy, b, ty, DyInt(-1)) /\ lin(sy, tp, ty, Dy1)
            /\ IF ev.conv = "gl" THEN zc(n, DyInt(-1)) /\ zc(f, Dy1) ELSE zc(n, Dy0) /\ zc(f, Dy1)
 
+\* ---- rotations between representations (C05, C09) ----------------------------------------------------------------------
+\* 3x3 matrices are sequences of 3 columns; entry (row r, column c) = M[c][r]
+MatMul3(A, Bm) == [c \in 1..3 |-> [r \in 1..3 |-> DyAdd(DyAdd(DyMul(A[1][r], Bm[c][1]), DyMul(A[2][r], Bm[c][2])), DyMul(A[3][r], Bm[c][3]))]]
+MatNear(A, Bm, t) == \A c \in 1..3 : \A r \in 1..3 : DyNear(A[c][r], Bm[c][r], t)
+DM3(m) == [c \in 1..3 |-> DV(m[c])]
+\* an elementary rotation about a coordinate axis by an angle of the given sign (right-hand rule): exact 0/1 pattern,
+\* the two cosines equal, the two sines opposite, c^2 + s^2 = 1, and sin has the sign of the angle for |angle| < pi
+ElemOk(e, axis, ang, p) ==
+    LET i == CASE axis = "X" -> 1 [] axis = "Y" -> 2 [] axis = "Z" -> 3
+        j == (i % 3) + 1
+        k == (j % 3) + 1
+        c == e[j][j]  s == e[j][k] IN                                   \* column j = cos e_j + sin e_k ; column k = -sin e_j + cos e_k
+    /\ DyCmp(e[i][i], Dy1) = 0 /\ DyIsZero(e[i][j]) /\ DyIsZero(e[i][k]) /\ DyIsZero(e[j][i]) /\ DyIsZero(e[k][i])
+    /\ DyCmp(e[k][k], c) = 0 /\ DyCmp(e[k][j], DyNeg(s)) = 0
+    /\ DyNear(DyAdd(DySq(c), DySq(s)), Dy1, DyPow2(4 - p))
+    /\ (DyLt(DyAbs(ang), PiLo) /\ ~DyIsZero(s)) => (DyIsNeg(s) = DyIsNeg(ang))
+\* the axes a variant's name spells (TLC cannot index strings): the 12 sequences with distinct neighbours, each also as ...Ex
+OrderAxes(name) == CASE name \in {"XYX", "XYXEx"} -> <<"X", "Y", "X">>
+                     [] name \in {"XYZ", "XYZEx"} -> <<"X", "Y", "Z">>
+                     [] name \in {"XZX", "XZXEx"} -> <<"X", "Z", "X">>
+                     [] name \in {"XZY", "XZYEx"} -> <<"X", "Z", "Y">>
+                     [] name \in {"YXY", "YXYEx"} -> <<"Y", "X", "Y">>
+                     [] name \in {"YXZ", "YXZEx"} -> <<"Y", "X", "Z">>
+                     [] name \in {"YZX", "YZXEx"} -> <<"Y", "Z", "X">>
+                     [] name \in {"YZY", "YZYEx"} -> <<"Y", "Z", "Y">>
+                     [] name \in {"ZXY", "ZXYEx"} -> <<"Z", "X", "Y">>
+                     [] name \in {"ZXZ", "ZXZEx"} -> <<"Z", "X", "Z">>
+                     [] name \in {"ZYX", "ZYXEx"} -> <<"Z", "Y", "X">>
+                     [] name \in {"ZYZ", "ZYZEx"} -> <<"Z", "Y", "Z">>
+ExOrders == {"XYXEx", "XYZEx", "XZXEx", "XZYEx", "YXYEx", "YXZEx", "YZXEx", "YZYEx", "ZXYEx", "ZXZEx", "ZYXEx", "ZYZEx"}
+EulerOk(ev) ==
+    LET p == P(ev)
+        e == [i \in 1..3 |-> DM3(ev.e[i])]
+        a == DV(ev.angles)
+        ex == ev.order \in ExOrders                                   \* "XYZEx": the extrinsic (reversed) product
+        \* intrinsic: R = R_first(a) R_second(b) R_third(c); extrinsic: the reversed product
+        want == IF ex THEN MatMul3(MatMul3(e[3], e[2]), e[1]) ELSE MatMul3(MatMul3(e[1], e[2]), e[3]) IN
+    /\ \A i \in 1..3 : \A c \in 1..3 : AllFinite(ev.e[i][c])
+    /\ \A c \in 1..3 : AllFinite(ev.got[c])
+    /\ \A i \in 1..3 : ElemOk(e[i], OrderAxes(ev.order)[i], a[i], p)
+    /\ MatNear(DM3(ev.got), want, DyPow2(7 - p))                        \* from_euler is the product the variant's name spells
+    /\ ("back" \in DOMAIN ev) => (\A c \in 1..3 : AllFinite(ev.back[c])) /\ MatNear(DM3(ev.back), DM3(ev.got), DyPow2(14 - p))   \* to_euler rebuilds it (away from gimbal lock)
+
+\* the rotation matrix of a unit quaternion, entry by entry (columns)
+QuatMat(q) ==
+    LET x == q[1] y == q[2] z == q[3] w == q[4]
+        two(v) == DyScale(v, 1)
+        xx == DyMul(x, x) yy == DyMul(y, y) zz == DyMul(z, z)
+        xy == DyMul(x, y) xz == DyMul(x, z) yz == DyMul(y, z) wx == DyMul(w, x) wy == DyMul(w, y) wz == DyMul(w, z) IN
+    << << DySub(Dy1, two(DyAdd(yy, zz))), two(DyAdd(xy, wz)), two(DySub(xz, wy)) >>,
+       << two(DySub(xy, wz)), DySub(Dy1, two(DyAdd(xx, zz))), two(DyAdd(yz, wx)) >>,
+       << two(DyAdd(xz, wy)), two(DySub(yz, wx)), DySub(Dy1, two(DyAdd(xx, yy))) >> >>
+\* quat -> matrix (every from_quat) and matrix -> quat (every from_mat*, all four branches): the same polynomial relation
+QuatMatOk(ev) ==
+    LET p == P(ev) IN
+    /\ AllFinite(ev.q) /\ \A c \in 1..3 : AllFinite(ev.m[c])
+    /\ LET q == DV(ev.q) IN
+       /\ DyNear(VSq(q), Dy1, DyPow2(6 - p))
+       /\ MatNear(QuatMat(q), DM3(ev.m), DyPow2(8 - p))
+
 Ok(ev) ==
     CASE ev.op = "normalize" -> NormalizeOk(ev)
       [] ev.op = "angle_parallel" -> AngleParallelOk(ev)
@@ -181,6 +249,8 @@ Ok(ev) ==
       [] ev.op = "slerp8" -> Slerp8Ok(ev)
       [] ev.op = "rot_reach" -> RotReachOk(ev)
       [] ev.op = "view" -> ViewOk(ev)
+      [] ev.op = "euler" -> EulerOk(ev)
+      [] ev.op = "quat_mat" -> QuatMatOk(ev)
       [] ev.op = "proj" -> ProjOk(ev)
       [] OTHER -> FALSE
 
